@@ -772,6 +772,11 @@ class VM:
                 return Iter([w for w in _split_ws(s)])
             if last in ('starts_with', 'ends_with', 'contains'):
                 p = d(args[1])
+                if isinstance(p, (Seq, Slice)) and all(isinstance(d(c), str) and len(d(c)) == 1 for c in p.items):
+                    cs = [d(c) for c in p.items]       # a set of chars: any of them
+                    if last == 'contains':
+                        return any(c in s for c in cs)
+                    return bool(s) and (s[0] if last == 'starts_with' else s[-1]) in cs
                 if isinstance(p, str):
                     return {'starts_with': s.startswith(p), 'ends_with': s.endswith(p), 'contains': p in s}[last]
                 if isinstance(p, (Fn, Closure)):
